@@ -9,6 +9,10 @@ coordinates / data are compared with the binary32 instances (Flocq, coq/C19/Carr
 Call histories (the SAME DataArray / plateau array passed repeatedly, updated in place between the calls,
 interleaved with calls on other objects) are flattened: every call is compared with the model evaluated on the
 CURRENT content of its argument, and with the call on a fresh deep copy.
+Series with ATTACHMENTS (variances of the data, a mask, a further coordinate; 30% of the stand-alone series): the bins
+must hold every point with its attachments unchanged (Corr.v ObsAtt: plateau_bins of the same flags applied to the
+attachments; coq/C19/ProofsAtt.v: attachments_travel / rows_unchanged), collapse_plateaus = scipp bins.mean (mean of the
+unmasked points, variance sum(var)/n^2, NaN when every point is masked).
 """
 import math
 import random
@@ -24,7 +28,8 @@ TRUSTED = [
     'coq/C19/Model.v: hand-written model of find_plateaus/_derive/_check_total_tolerance/collapse_plateaus/'
     '_next_highest/_is_approximate_multiple/filter_in_phase (validated against the real functions on every run)',
     'modelled scipp primitives: cumsum, concat, group (one bin per distinct label, ascending, stable), bins.size, '
-    'boolean-mask indexing, bins.mean/min/max, sc.round (ties to even), sc.reciprocal, element-wise IEEE binary64 '
+    'boolean-mask indexing, bins.mean/min/max (bins.mean skips masked events and propagates variances as sum/n^2; group moves '
+    'whole rows: value, variance, coordinates, mask entries), sc.round (ties to even), sc.reciprocal, element-wise IEEE binary64 '
     '+ - / abs > <, int64 difference converted to double for the division',
     'Coq primitive floats (PrimFloat: IEEE-754 binary64 add/sub/mul/div/compare/next_up, hexadecimal literals, Prim2SF)',
     'float32: Flocq IEEE754.BinarySingleNaN at precision 24 / emax 128 (Bminus, Bdiv, Bleb, Bsucc, binary_normalize) as the '
@@ -34,7 +39,11 @@ TRUSTED = [
     'tools/harness/c19_impl.py + props/C19.py (generation, exact serialisation of binary64 as hex literals)',
 ]
 ASSUMPTIONS = [
-    'atol is given in the unit of the derivative (no unit conversion of the tolerance); data without variances',
+    'atol is given in the unit of the derivative (no unit conversion of the tolerance)',
+    'attachments: variances are ignored by the slope test and the drift guard (scipp comparisons ignore variances; the guard '
+    'uses .data, so masked points count); "its mean" of a plateau with masked points is scipp\'s bins.mean: the mean of the points '
+    'that are not masked (NaN when all are), variance of the mean = sum of their variances / n^2 (compared to 4x the mean '
+    'tolerance, relative); the interval holds ALL points of the plateau, masked or not; histories carry no attachments',
     'coordinates are finite and sorted ascending (find_plateaus refuses anything else); integer / datetime64 '
     'coordinate differences are below 2^53 so their conversion to double is exact',
     'the drift guard and the bin means use scipp\'s (not left-to-right) summation: the guard decision is compared '
@@ -62,6 +71,16 @@ def cf(x):
     """Coq binary64 literal (hexadecimal, exact)"""
     h = float(x).hex()
     return f'({h})' if h.startswith('-') else h
+
+
+def cfn(x):
+    """like cf, NaN / infinities allowed (the mean of a plateau whose points are all masked is NaN)"""
+    x = float(x)
+    if x != x:
+        return 'nan'
+    if math.isinf(x):
+        return 'infinity' if x > 0 else 'neg_infinity'
+    return cf(x)
 
 
 def cz(n):
@@ -136,7 +155,33 @@ def exact_flags(case):
 
 
 # --------------------------------------------------------------------------- plateau generator
-def gen_series(rng, tier, n=None, coord=None, ydtype=None, xdtype='auto'):
+def gen_att(rng, n, ydtype, y, scale):
+    """attachments of a series: variances of the data (float dtypes), a mask, a further int64 coordinate"""
+    kinds = ['mask', 'extra'] + (['var', 'var', 'var'] if ydtype in ('float64', 'float32') else [])
+    chosen = {rng.choice(kinds)}
+    for k in ('var', 'mask', 'extra'):
+        if k in kinds and rng.random() < 0.4:
+            chosen.add(k)
+    att = {'var': None, 'mask': None, 'extra': None}
+    if 'var' in chosen:
+        m = rng.random()
+        if m < 0.1:
+            v = [rng.choice([0.0, 0.25, 1.0]) for _ in range(n)]
+        else:
+            s = loguniform(rng, 1e-4, 10.0) * max(scale, 1e-300) ** (2 if rng.random() < 0.5 else 0)
+            v = [s * rng.uniform(0.2, 2.0) for _ in range(n)]
+        att['var'] = [r32(x) for x in v] if ydtype == 'float32' else v
+    if 'mask' in chosen:
+        m = rng.random()
+        p = 0.0 if m < 0.1 else 1.0 if m < 0.2 else rng.choice([0.1, 0.3, 0.7])
+        att['mask'] = [1 if rng.random() < p else 0 for _ in range(n)]
+    if 'extra' in chosen:
+        att['extra'] = ([int(round(v)) for v in y] if rng.random() < 0.5 and all(abs(v) < 2 ** 60 for v in y)
+                        else [rng.randint(-1000, 1000) for _ in range(n)])
+    return att
+
+
+def gen_series(rng, tier, n=None, coord=None, ydtype=None, xdtype='auto', att=False):
     """one series: coordinates (non-uniform, ascending), piecewise-constant levels + noise, steps near the tolerance"""
     if n is None:
         r = rng.random()
@@ -272,7 +317,10 @@ def gen_series(rng, tier, n=None, coord=None, ydtype=None, xdtype='auto'):
         seg_left -= 1
     if ydtype == 'float32':
         y = [r32(v) for v in y]
-    return {'kind': 'plateau', 'coord': coord, 'ydtype': ydtype, 'xv': x, 'yv': y, 'nice': nice, 'A': A, 'layout': layout, 'xdtype': xdtype}
+    case = {'kind': 'plateau', 'coord': coord, 'ydtype': ydtype, 'xv': x, 'yv': y, 'nice': nice, 'A': A, 'layout': layout, 'xdtype': xdtype}
+    if att:
+        case['att'] = gen_att(rng, n, ydtype, y, a)
+    return case
 
 
 def pick_params(rng, case, A=None):
@@ -308,8 +356,11 @@ def pick_params(rng, case, A=None):
     return case
 
 
-def gen_plateau(rng, tier):
-    return pick_params(rng, gen_series(rng, tier))
+def gen_plateau(rng, tier, att=None):
+    """att: None = 30% of the series carry attachments; True = always (float data, so that variances are possible)"""
+    if att:
+        return pick_params(rng, gen_series(rng, tier, ydtype=rng.choice([None, None, 'float64', 'float32']), att=True))
+    return pick_params(rng, gen_series(rng, tier, att=rng.random() < 0.3))
 
 
 def hx(coord, v):
@@ -321,7 +372,29 @@ def series_payload(case):
          'y': [float(v).hex() for v in case['yv']]}
     if case.get('xdtype'):
         d['xdtype'] = case['xdtype']
+    a = case.get('att')
+    if a:
+        if a['var'] is not None:
+            d['var'] = [float(v).hex() for v in a['var']]
+        if a['mask'] is not None:
+            d['mask'] = [int(v) for v in a['mask']]
+        if a['extra'] is not None:
+            d['extra'] = [int(v) for v in a['extra']]
     return d
+
+
+def att_points(case):
+    """per input point [variance (hex) | None, mask | None, further coordinate | None] — the encoding of the harness"""
+    a = case.get('att') or {'var': None, 'mask': None, 'extra': None}
+    n = len(case['xv'])
+    return [[None if a['var'] is None else float(a['var'][i]).hex(), None if a['mask'] is None else int(a['mask'][i]),
+             None if a['extra'] is None else int(a['extra'][i])] for i in range(n)]
+
+
+def expected_meta(case):
+    a = case.get('att') or {}
+    return {'coords': sorted(['t'] + (['sp'] if a.get('extra') is not None else [])),
+            'masks': ['bad'] if a.get('mask') is not None else [], 'has_var': a.get('var') is not None}
 
 
 def payload_of(case):
@@ -602,25 +675,45 @@ def spec_runs(case):
     return [r for r in runs if r[1] - r[0] + 1 >= case['min_n']]
 
 
-def collapse_violations(coord, ydtype, bins, col):
+def collapse_violations(coord, ydtype, bins, col, att=None, colvar=None):
     """collapsing gives each plateau its mean and a half-open coordinate interval that contains all of its points;
-    bins = [[(x, y), ...], ...] (current content), col = the observation [[mean, low, high], ...]"""
+    bins = [[(x, y), ...], ...] (current content), col = the observation [[mean, low, high], ...];
+    att = per bin, per point [variance | None, mask | None, ...] (None: nothing attached): the mean is scipp's
+    bins.mean — over the points that are not masked (NaN if there is none), with variance sum(var)/n^2 over the
+    same points iff the data has variances; colvar = the observed variances of the means (None: no variances)"""
     if isinstance(col, dict):
         return [f'collapse_plateaus raises {col["error"]}']
     if len(col) != len(bins):
         return ['collapse: wrong number of plateaus']
     for k, (b, (m, lo, hi)) in enumerate(zip(bins, col)):
         seg_x = [p[0] for p in b]
-        seg_y = [p[1] for p in b]
         lo_v, hi_v = unhx(coord, lo), unhx(coord, hi)
         if not all(lo_v <= v < hi_v for v in seg_x):
             return [f'collapse: interval [{lo_v!r}, {hi_v!r}) does not contain all points {seg_x[:6]} of plateau {k} '
                     f'(coordinate dtype {coord})']
-        em = sum(Fraction(v) for v in seg_y) / len(b)
-        mag = sum(abs(Fraction(v)) for v in seg_y) / len(b)
-        tol = Fraction(len(b) + 2, 2 ** 24) if ydtype == 'float32' else Fraction(1, 10 ** 12)
-        if abs(Fraction(float.fromhex(m)) - em) > tol * mag:
-            return [f'collapse: mean {float.fromhex(m)!r} of plateau {k} differs from {float(em)!r}']
+        ab = att[k] if att is not None else [[None, None, None]] * len(b)
+        keep = [i for i in range(len(b)) if not ab[i][1]]
+        has_var = any(a[0] is not None for a in ab)
+        if (colvar is not None) != has_var:
+            return [f'collapse: the means {"carry" if colvar is not None else "lost their"} variances although the points of '
+                    f'the plateaus have {"variances" if has_var else "none"}']
+        tol = Fraction(len(keep) + 2, 2 ** 24) if ydtype == 'float32' else Fraction(1, 10 ** 12)
+        mv = float.fromhex(m)
+        if not keep:
+            if mv == mv:
+                return [f'collapse: mean {mv!r} of plateau {k} whose points are all masked (scipp bins.mean: NaN)']
+            continue
+        seg_y = [b[i][1] for i in keep]
+        em = sum(Fraction(v) for v in seg_y) / len(keep)
+        mag = sum(abs(Fraction(v)) for v in seg_y) / len(keep)
+        if mv != mv or math.isinf(mv) or abs(Fraction(mv) - em) > tol * mag:
+            return [f'collapse: mean {mv!r} of plateau {k} differs from {float(em)!r}'
+                    + (' (mean of the points that are not masked)' if len(keep) < len(b) else '')]
+        if has_var:
+            ev = sum(Fraction(float.fromhex(ab[i][0])) for i in keep) / len(keep) ** 2
+            vv = float.fromhex(colvar[k])
+            if vv != vv or math.isinf(vv) or abs(Fraction(vv) - ev) > 4 * tol * ev:
+                return [f'collapse: variance {vv!r} of the mean of plateau {k} differs from sum(var)/n^2 = {float(ev)!r}']
     return []
 
 
@@ -655,7 +748,8 @@ def property_violations(case, obs):
             bad.append('kept elements out of order')
         return bad
     if case['kind'] == 'collapse':
-        return collapse_violations(case['coord'], case['ydtype'], case['bins'], obs['collapsed']) + bad
+        return collapse_violations(case['coord'], case['ydtype'], case['bins'], obs['collapsed'],
+                                   colvar=obs.get('collapsed_var')) + bad
     if 'error' in obs:
         if obs['error'] != 'RuntimeError':
             bad.insert(0, f'raises {obs["error"]}: {obs.get("msg")}')
@@ -672,13 +766,36 @@ def property_violations(case, obs):
         bad.insert(0, f'bins are not the maximal within-tolerance runs of the current content: expected runs {want[:12]} '
                    f'(sizes {[b - a + 1 for a, b in want][:12]}), got sizes {got_sizes[:12]}')
         return bad
+    # ... each holding its points unchanged: also what travels with a point (variance, mask, further coordinates)
+    if 'bin_meta' in obs and obs['bin_meta'] != expected_meta(case):
+        bad.insert(0, f'bins do not hold their input points unchanged: the bin content has coordinates / masks / variances '
+                   f'{obs["bin_meta"]}, the input series {expected_meta(case)}')
+        return bad
+    ap = att_points(case)
+    exp_att = [[ap[i] for i in range(a, b + 1)] for a, b in want]
+    if case.get('att') or 'att_bins' in obs:
+        got_att = obs.get('att_bins')
+        if got_att != exp_att:
+            k = next((k for k, (g, e) in enumerate(zip(got_att or [], exp_att)) if g != e), 0)
+            bad.insert(0, f'bins do not hold their input points unchanged: [variance, mask, further coordinate] of the points '
+                       f'of plateau {k} are {str((got_att or [None])[k])[:160]}, in the input {str(exp_att[k])[:160]}')
+            return bad
     bins = [[(xs[i], ys[i]) for i in range(a, b + 1)] for a, b in want]
-    return collapse_violations(coord, case['ydtype'], bins, obs.get('collapsed')) + bad
+    return collapse_violations(coord, case['ydtype'], bins, obs.get('collapsed'), att=exp_att,
+                               colvar=obs.get('collapsed_var')) + bad
 
 
 # --------------------------------------------------------------------------- Coq terms
 def cx_term(coord):
     return cf if coord == 'float' else c32 if coord == 'float32' else cz
+
+
+def att_term(a):
+    """(variance (0 when absent), has variance, masked, [has mask; has further coordinate; its value])"""
+    var, mask, extra = a
+    b = lambda v: 'true' if v else 'false'
+    return (f'({cf(float.fromhex(var)) if var is not None else cf(0.0)},{b(var is not None)},{b(bool(mask))},'
+            f'[{cz(0 if mask is None else 1)};{cz(0 if extra is None else 1)};{cz(extra or 0)}])')
 
 
 def obs_term(case, obs):
@@ -693,7 +810,14 @@ def obs_term(case, obs):
     col = obs['collapsed']
     if isinstance(col, dict):
         return None
-    coll = '[' + ';'.join(f'({cf(float.fromhex(m))},{cxo(lo)},{cxo(hi)})' for m, lo, hi in col) + ']'
+    coll = '[' + ';'.join(f'({cfn(float.fromhex(m))},{cxo(lo)},{cxo(hi)})' for m, lo, hi in col) + ']'
+    if case.get('att') or 'att_bins' in obs:
+        ain = '[' + ';'.join(att_term(a) for a in att_points(case)) + ']'
+        ab = '[' + ';'.join('[' + ';'.join(att_term(a) for a in b) + ']' for b in obs.get('att_bins') or []) + ']'
+        cv = obs.get('collapsed_var')
+        cvt = '[' + ';'.join(f'(true,{cfn(float.fromhex(v))})' if cv is not None else f'(false,{cf(0.0)})'
+                             for v in (cv if cv is not None else col)) + ']'
+        return f'(ObsAtt {bins} {coll} {ain} {ab} {cvt})'
     return f'(ObsBins {bins} {coll})'
 
 
@@ -728,7 +852,9 @@ def case_term(case, obs):
 
 
 def describe(case, obs=None, full=False):
-    d = {k: case[k] for k in case if k not in ('xv', 'yv', 'fv', 'bins', 'payload', 'A', 'hist')}
+    d = {k: case[k] for k in case if k not in ('xv', 'yv', 'fv', 'bins', 'payload', 'A', 'hist', 'att')}
+    if case.get('att'):
+        d['attachments'] = case['att'] if full else {k: v[:6] for k, v in case['att'].items() if v is not None}
     if case.get('hist'):
         d['history_step'] = {k: v for k, v in case['hist'].items() if k != 'payload'}
     if case['kind'] == 'phase':
@@ -853,6 +979,12 @@ def correspondence(ctx):
                 ctx.violation(f'{kind}:collapse-raises', f'collapse_plateaus raises {o["collapsed"]["error"]} on the '
                               f'result of find_plateaus{hist_note(c)}: {describe(c, o)}', replay_obj(c, o))
                 continue
+            if c['kind'] == 'plateau' and 'bin_meta' in o and \
+                    [o['bin_meta'][k] for k in ('coords', 'masks')] != [expected_meta(c)[k] for k in ('coords', 'masks')]:
+                # names only; the content of variances / mask / further coordinate is compared in Coq (ObsAtt)
+                ctx.violation(f'{kind}:bin-content-layout',
+                              f'{kind}: the bins do not hold their input points unchanged: bin content has coordinates / masks / '
+                              f'variances {o["bin_meta"]}, the input series {expected_meta(c)}: {describe(c, o)}', replay_obj(c, o))
             if c['kind'] == 'plateau' and o['plateau_coord'] != list(range(len(o['bins']))):
                 ctx.violation(f'{kind}:plateau-coord', f'plateau coordinate is not 0..k-1: {o["plateau_coord"][:10]}',
                               replay_obj(c, o))
@@ -925,7 +1057,10 @@ def correspondence(ctx):
         'rule': 'random.Random(seed): plateau series of 2..500 points (mostly 5..60), non-uniform ascending float64 / float32 / int64 / '
                 'datetime64[ns] coordinates (a third of the small int64 ones as int32; 85% independent random steps, 12% a regular grid with jittered interior points, 3% exactly regular; 5% of float series with repeated coordinates), data float64 / float32 (60% of the '
                 'float32-coordinate series, ~13% of the others) / int64 / int32, piecewise-constant levels + noise, '
-                'steps at (1 +- 1e-6) x tolerance, ramps (drift guard), 30% on dyadic grids (exact ties); the tolerance is the '
+                'steps at (1 +- 1e-6) x tolerance, ramps (drift guard), 30% on dyadic grids (exact ties); 30% of the stand-alone series '
+                'carry attachments (a non-empty subset of: variances of the data (float dtypes; in the dtype of the data; 10% from '
+                '{0, 0.25, 1}), a mask (10% nothing masked, 10% everything, else 10/30/70% of the points), a further int64 '
+                'coordinate): bins must hold them unchanged, collapse = mean of the unmasked points with variance sum(var)/n^2; the tolerance is the '
                 'nominal one (30%) or |an actual slope| (42%: a slope EXACTLY at atol) or one ulp above/below it (28%); '
                 'min_n_points 1..n; in-phase lists of 1..60 frequencies (float64 / float32 / int64): n*ref*(1+delta), ref/(n+delta) with '
                 'delta in {0, +-0.5, +-0.99, +-1, +-1.01, +-2} x rtol, n in -3..25 incl. 0, +-0, ties of the rounding, '
@@ -968,6 +1103,20 @@ def correspondence(ctx):
             if s['op'] in ('find', 'phase', 'collapse') and any(
                 t['obj'] == s['obj'] and t['op'] in ('set', 'pset') for t in h['payload']['steps'][:i])),
         'history_calls_compared_with_fresh_copy': sum(1 for c, o in flat if c.get('hist') and 'fresh_same' in o),
+        'series_with_attachments': {
+            'total': sum(1 for c, _ in pl if c.get('att')),
+            'variances': sum(1 for c, _ in pl if c.get('att') and c['att']['var'] is not None),
+            'variances_float32': sum(1 for c, _ in pl if c.get('att') and c['att']['var'] is not None and c['ydtype'] == 'float32'),
+            'mask': sum(1 for c, _ in pl if c.get('att') and c['att']['mask'] is not None),
+            'further_coordinate': sum(1 for c, _ in pl if c.get('att') and c['att']['extra'] is not None),
+            'returned_with_plateaus': sum(1 for c, o in returned if c.get('att') and len(o['bins']) >= 1),
+            'plateaus_with_a_masked_point': sum(1 for c, o in returned if c.get('att') for b in o.get('att_bins') or []
+                                                if any(a[1] for a in b)),
+            'plateaus_fully_masked': sum(1 for c, o in returned if c.get('att') for b in o.get('att_bins') or []
+                                         if b and all(a[1] for a in b)),
+            'collapsed_means_with_variance': sum(len(o['collapsed_var']) for c, o in returned
+                                                 if c.get('att') and o.get('collapsed_var') is not None),
+        },
         'coq_groups': {g: len(groups[g][0]) for g in groups},
         'disagreements': n_fail,
         'samples': [describe(c, o) for c, o in (pl[:1] + pl[6:8] + ph[:1] + ph[-1:] + co[:1]
@@ -984,6 +1133,11 @@ def search(ctx, broken):
     for attempt in range(2):
         rng = random.Random(ctx.seed + 1 + 7919 * attempt)
         cases = gen_cases(rng, 'quick')
+        if any('find_plateaus' in b or 'collapse_plateaus' in b or '_derive' in b or '_check_total' in b or '_next_highest' in b
+               for b in broken or []) or attempt == 1:
+            # a changed statement of the plateau functions that no series executed: series of every coordinate kind that
+            # all carry attachments (variances / masks / further coordinates switch on further paths of scipp and the code)
+            cases += [annotate(gen_plateau(rng, 'quick', att=True)) for _ in range(300)]
         flat, _ = run_cases(ctx, cases)
         for c, o in flat:
             pv = property_violations(c, o)
@@ -1033,6 +1187,10 @@ def replay(ctx, obj):
              'xv': [unhx(payload['coord'], v) for v in payload['x']],
              'yv': [float.fromhex(v) for v in payload['y']], 'atolv': float.fromhex(payload['atol']),
              'min_n': payload['min_n']}
+        if any(k in payload for k in ('var', 'mask', 'extra')):
+            c['att'] = {'var': [float.fromhex(v) for v in payload['var']] if 'var' in payload else None,
+                        'mask': payload.get('mask'), 'extra': payload.get('extra')}
+            print('attachments (variances / mask / further coordinate):', c['att'])
         print('x =', c['xv'])
         print('y =', c['yv'])
         print('atol =', repr(c['atolv']), 'min_n_points =', c['min_n'], 'coord dtype =', c['coord'], 'data dtype =', c['ydtype'])
@@ -1044,6 +1202,10 @@ def replay(ctx, obj):
             print('observed bins (sizes)        :', [len(b) for b in o['bins']])
             print('observed bins (x of points)  :', [[unhx(c['coord'], p[0]) for p in b] for b in o['bins']][:20])
             print('observed collapsed (mean, low, high):', o.get('collapsed'))
+            if c.get('att') or 'att_bins' in o:
+                print('observed bin content layout  :', o.get('bin_meta'))
+                print('observed [variance, mask, further coordinate] per point of the bins:', str(o.get('att_bins'))[:600])
+                print('observed variances of the means:', o.get('collapsed_var'))
     pv = property_violations(c, o)
     print('property check:', pv or 'no violation on this input')
     return 1 if pv else 0
